@@ -65,8 +65,8 @@ func v0Twin(id atree.SlabID, data []byte) ([]byte, bool) {
 		for i := 0; i < n; i++ {
 			e := rest[i*14:]
 			out = append(out, addr...)
-			out = append(out, e[:8]...)    // index
-			out = append(out, e[8:12]...)  // count
+			out = append(out, e[:8]...)           // index
+			out = append(out, e[8:12]...)         // count
 			out = append(out, 0, 0, e[12], e[13]) // size widened to 4 bytes
 		}
 		return out, true
@@ -106,7 +106,10 @@ type corpusEntry struct {
 func c19Corpus(seed int64, obs map[string]int) ([]corpusEntry, error) {
 	var out []corpusEntry
 	for i, slab := range []uint32{256, 1024} {
-		for j, kind := range []string{"array", "map", "map-collide"} {
+		for j, kind := range []string{"array", "map", "map-collide", "array-deep", "map-deep"} {
+			if slab != 256 && strings.HasSuffix(kind, "-deep") {
+				continue
+			}
 			atree.VerifSetThreshold(slab)
 			w := NewWorld(seed+int64(i*10+j), addrOf(byte(1+i*3+j), 0))
 			w.traceOn = false
@@ -117,11 +120,27 @@ func c19Corpus(seed int64, obs map[string]int) ([]corpusEntry, error) {
 			w.prof.Sizes = "mixed"
 			var root *Node
 			var err error
+			steps := 260
 			switch kind {
 			case "array":
 				root, err = w.NewRootArray(w.addr, w.newTI(false))
 			case "map":
 				root, err = w.NewRootMap(w.addr, w.newTI(false), nil)
+			case "array-deep", "map-deep":
+				// three levels: index slabs that are not roots (children of index slabs)
+				w.prof.PContainer = 0
+				w.prof.MaxDepth = 0
+				w.prof.BigKeys = false
+				w.prof.KeySpace = 20000
+				if kind == "array-deep" {
+					w.prof.Sizes = "medium"
+					steps = 1500
+					root, err = w.NewRootArray(w.addr, w.newTI(false))
+				} else {
+					w.prof.Sizes = "small"
+					steps = 1800
+					root, err = w.NewRootMap(w.addr, w.newTI(false), nil)
+				}
 			default:
 				root, err = w.NewRootMap(w.addr, w.newTI(false), &DigProfile{Alpha: [4]uint64{6, 2, 2, 1}, Salt: uint64(seed)})
 				w.prof.KeySpace = 150
@@ -130,7 +149,7 @@ func c19Corpus(seed int64, obs map[string]int) ([]corpusEntry, error) {
 				return nil, err
 			}
 			w.AddRoot(root)
-			for k := 0; k < 260; k++ {
+			for k := 0; k < steps; k++ {
 				if err := w.Step(root, PhaseGrow, &HistCfg{DescendPct: 35, PopOnChild: true}); err != nil {
 					return nil, err
 				}
@@ -428,6 +447,65 @@ func runC19(c *CaseCtx) *CaseResult {
 			}
 		}
 		res.Obs["exhaustive-short-inputs"] += 1 + 256 + 2*65536
+	}
+	// SYSTEMATIC single-field arithmetic: index slabs (and the head of every other register) consist of fixed-width
+	// big-endian fields - child counts, sizes, element counts, indexes. Every 2-, 4- and 8-byte window of every index-slab
+	// register of this case's corpus (first 56 bytes of the other registers; two registers of every kind per case) is replaced, alone, by values that a narrowed
+	// or wrapped computation would confuse with the original: top bit flipped, +2^15, +2^8, doubled, complemented,
+	// byte-swapped, +-1, 0, all ones. One field per input, nothing else disturbed.
+	{
+		n := 0
+		perKind := map[string]int{}
+		for _, e := range corpus {
+			// two registers of every kind per case (64 / 160 cases, each with its own corpus)
+			if perKind[e.kind]++; perKind[e.kind] > 2 {
+				continue
+			}
+			limit := len(e.data)
+			if !strings.Contains(e.kind, "meta") && limit > 56 {
+				limit = 56
+			}
+			if limit > 700 {
+				limit = 700
+			}
+			buf := make([]byte, len(e.data))
+			for pos := 0; pos < limit; pos++ {
+				for _, wd := range []int{2, 4, 8} {
+					if pos+wd > len(e.data) {
+						continue
+					}
+					var v uint64
+					for i := 0; i < wd; i++ {
+						v = v<<8 | uint64(e.data[pos+i])
+					}
+					top := uint64(1) << uint(8*wd-1)
+					mask := ^uint64(0)
+					if wd < 8 {
+						mask = uint64(1)<<uint(8*wd) - 1
+					}
+					var sw uint64
+					for i := 0; i < wd; i++ {
+						sw = sw<<8 | (v >> uint(8*i) & 0xff)
+					}
+					for vi, nv := range []uint64{v ^ top, v + top/2, v + 256, v << 1, ^v, sw, v + 1, v - 1, 0, mask, v | top>>1} {
+						nv &= mask
+						if nv == v {
+							continue
+						}
+						copy(buf, e.data)
+						for i := wd - 1; i >= 0; i-- {
+							buf[pos+i] = byte(nv)
+							nv >>= 8
+						}
+						n++
+						if !check(e, buf, fmt.Sprintf("single field: offset %d width %d variant %d", pos, wd, vi)) {
+							return res
+						}
+					}
+				}
+			}
+		}
+		res.Obs["systematic-single-field-inputs"] += n
 	}
 	// parse the v1 data / storable registers once into CBOR item trees for the structure-preserving mutator
 	type treeEntry struct {
